@@ -574,8 +574,10 @@ class SSHClientConfig(SSHConfig):
 
         # pylint: disable=unused-argument
 
-        pattern = ','.join(args)
-        self._matching = WildcardPatternList(pattern).matches(self._orig_host)
+        # The patterns of a Host line are separated by whitespace only;
+        # a comma is an ordinary character there
+        self._matching = \
+            WildcardPatternList(list(args)).matches(self._orig_host)
         args.clear()
 
     def _set_hostname(self, option: str, args: List[str]) -> None:
